@@ -502,14 +502,20 @@ func progressRule(w *World, r *Report, e *Engine) {
 	}
 	p.solve(cands)
 	// the reader functions that recurse must all be consuming
-	must := []string{"read_form", "read_list", "read_atom", "read_vector", "read_hash_map", "read_set", "read_placeholder", "read_external", "(*tokenReader).next"}
-	nm := 0
-	for _, name := range must {
-		fn := w.Fn("reader", name)
-		if fn == nil {
-			r.undecided("C05.progress", nil, "consume summary of "+name, token.NoPos, "function no longer resolves")
-			continue
+	// (every parsing function of the reader - token reader in, error out - and the accessor that advances the cursor)
+	var must []*ssa.Function
+	for _, fn := range w.pkgFuncs("reader") {
+		if isReaderFn(fn) {
+			must = append(must, fn)
 		}
+	}
+	if next, _ := w.tokenAccessors(); next != nil {
+		must = append(must, next)
+	} else {
+		r.undecided("C05.progress", nil, "consume summary of the token accessor", token.NoPos, "the method of the token reader that advances the cursor no longer resolves")
+	}
+	nm := 0
+	for _, fn := range must {
 		nm++
 		if p.consuming[fn] {
 			r.ok("C05.progress", fn, "consume summary", fn.Pos(), "every successful return is dominated by a successful consume")
